@@ -46,6 +46,21 @@ Theorem C09_compound_triangle : forall w x y z,
   cmp_dist w z <= cmp_dist w x + cmp_dist w y.
 Proof. exact cmp_dist_triangle. Qed.
 
+(* float level, bit-exact: d(x,y) and d(y,x) are the SAME double (or the same panic) on R^n, and symmetry lifts
+   from the components to compounds of any width and nesting (Spaces/CompoundN.v) *)
+From OX Require Spaces.SpacesF Spaces.SpacesFProofs Spaces.CompoundN.
+Theorem C09_float_rv_symmetric : forall dim a b, SpacesF.rv_dist dim a b = SpacesF.rv_dist dim b a.
+Proof. exact SpacesFProofs.rv_dist_sym. Qed.
+Theorem C09_float_compound_symmetric : forall acosF subs,
+  Forall (fun sw => CompoundN.dist_sym_law acosF (fst sw)) subs -> CompoundN.dist_sym_law acosF (SpacesF.CS subs).
+Proof. exact CompoundN.compound_distance_symmetric. Qed.
+Theorem C09_float_box_tree_symmetric : forall acosF s x y,
+  CompoundN.box_tree s -> SpacesF.distance acosF s x y = SpacesF.distance acosF s y x.
+Proof. intros acosF s x y Hs. exact (CompoundN.box_tree_sym acosF s Hs x y). Qed.
+
+Print Assumptions C09_float_rv_symmetric.
+Print Assumptions C09_float_compound_symmetric.
+Print Assumptions C09_float_box_tree_symmetric.
 Print Assumptions C09_rv_triangle.
 Print Assumptions C09_so2_triangle.
 Print Assumptions C09_so3_triangle.
